@@ -11,6 +11,7 @@ import (
 	"strings"
 	"sync"
 	"testing"
+	"time"
 
 	"github.com/circlefin/noble-cctp/x/cctp/types"
 	sdk "github.com/cosmos/cosmos-sdk/types"
@@ -434,7 +435,7 @@ func RunC18Proc(t *testing.T) {
 // sized by GOMAXPROCS) has to give the same results in the child process, which runs with GOMAXPROCS=1.
 func largeQuorumCases() ([]*c18case, error) {
 	var out []*c18case
-	for _, t := range []int{16, 24, 32} {
+	for _, t := range []int{16, 24, 32, 64, 128, 256} {
 		gs := enumGenesis([4]int{0, 1, 2, 3})
 		gs.Attesters = nil
 		var ks []*attest.Key
@@ -451,6 +452,9 @@ func largeQuorumCases() ([]*c18case, error) {
 		c := &c18case{Gen: gs}
 		by := sim.Acct(4)
 		for p := 0; p+1 < t; p++ {
+			if t > 32 && p != 0 && p != t/2 && p != t-2 {
+				continue // (verification time grows with t; the large sets are there for time budgets, not positions)
+			}
 			m, _ := refcodec.EncodeMessage(&refcodec.Message{Version: 0, Source: 7, Dest: 4, Nonce: uint64(1000 + p), Sender: sim.Pad32([]byte{1}), Recip: sim.Pad32([]byte{2}), Caller: make([]byte, 32), Body: []byte{byte(p)}})
 			var good, bad []byte
 			for i, k := range ks[:t] {
@@ -517,6 +521,71 @@ func procCompare(cases []*c18case) (v *Viol, harness string) {
 		mine[i] = d
 		if diff := firstDiff(d, digest{Parts: child[i]}); diff != "" {
 			return viol("C18", i, "replay in another OS process (GOMAXPROCS=1, other TZ, cwd=/, histories in another order) differs", "byte-identical", diff), ""
+		}
+	}
+	// the same histories at another place in the chain's life (height, block time, proposer) and, for the
+	// large-quorum ones, on a starved processor a little later in wall-clock time
+	runChild := func(tag string, env []string, idxs []int) (map[int][]string, string) {
+		o := filepath.Join(dir, "c18proc."+tag+".json")
+		res := map[int][]string{}
+		for _, i := range idxs {
+			cmd := exec.Command(os.Args[0], "-test.run", "^TestC18Child$", "-test.count", "1")
+			cmd.Dir = "/"
+			cmd.Env = append(append(os.Environ(), "VERIF_C18_CHILD="+in, "VERIF_C18_OUT="+o), env...)
+			if i >= 0 {
+				cmd.Env = append(cmd.Env, fmt.Sprintf("VERIF_C18_ONLY=%d", i))
+			}
+			if out, err := cmd.CombinedOutput(); err != nil {
+				return nil, fmt.Sprintf("%s child failed: %v\n%s", tag, err, out)
+			}
+			b, err := os.ReadFile(o)
+			if err != nil {
+				return nil, err.Error()
+			}
+			var all [][]string
+			mustJSON(b, &all)
+			_ = os.Remove(o)
+			for j, p := range all {
+				if p != nil && (i < 0 || j == i) {
+					res[j] = p
+				}
+			}
+		}
+		return res, ""
+	}
+	noAppHash := func(parts []string) digest {
+		var d digest
+		for _, p := range parts {
+			if !strings.Contains(p, ".apphash=") { // (the store's root hash covers version numbers, i.e. heights)
+				d.Parts = append(d.Parts, p)
+			}
+		}
+		return d
+	}
+	shifted, h := runChild("shift", []string{"VERIF_C18_SHIFT=1"}, []int{-1})
+	if h != "" {
+		return nil, h
+	}
+	for i := range cases {
+		if diff := firstDiff(noAppHash(mine[i].Parts), noAppHash(shifted[i])); diff != "" {
+			return viol("C18", i, "replay under another initial height, block time and proposer gives other results", "identical (store root aside)", diff), ""
+		}
+	}
+	var big []int
+	for i, c := range cases {
+		if c.Gen != nil && c.Gen.Threshold >= 64 {
+			big = append(big, i)
+		}
+	}
+	if len(big) > 0 {
+		starved, h := runChild("starve", []string{"VERIF_C18_STARVE=1", "GOMAXPROCS=1", "VERIF_C18_DELAY_MS=1100"}, big)
+		if h != "" {
+			return nil, h
+		}
+		for _, i := range big {
+			if diff := firstDiff(mine[i], digest{Parts: starved[i]}); diff != "" {
+				return viol("C18", i, "replay on a starved processor (every step takes many times longer in wall-clock time) differs", "byte-identical", diff), ""
+			}
 		}
 	}
 	// each history alone in a process that has executed nothing else: by now this process has
@@ -596,6 +665,27 @@ func RunC18Child(t *testing.T) {
 	mustJSON(bz, &cases)
 	// replay in reverse order: whatever this process retains from "earlier" histories differs
 	// from what the parent retained, so memory kept outside the store shows as a difference
+	if os.Getenv("VERIF_C18_SHIFT") != "" {
+		// another place in the chain's life: initial height, block times and proposer differ from the parent's
+		chain.InitialHeight = 30_000_001
+		chain.BlockTimeBase = time.Date(2031, 7, 1, 12, 0, 0, 0, time.UTC)
+		chain.Proposer = []byte("another-proposer-20b")
+	}
+	if os.Getenv("VERIF_C18_STARVE") != "" {
+		// CPU starvation: one processor shared with busy goroutines makes everything take many times longer in
+		// wall-clock terms (a time budget inside the module would run out here and not in the parent)
+		for i := 0; i < 24; i++ {
+			go func() {
+				for {
+				}
+			}()
+		}
+	}
+	if d := os.Getenv("VERIF_C18_DELAY_MS"); d != "" {
+		var ms int
+		fmt.Sscan(d, &ms)
+		time.Sleep(time.Duration(ms) * time.Millisecond)
+	}
 	out := make([][]string, len(cases))
 	only := -1
 	if s := os.Getenv("VERIF_C18_ONLY"); s != "" {
